@@ -387,6 +387,12 @@ MANIFEST_TEXT = {
     },
 }
 
+COST_FAMILIES = ["Memmem", "StartBytesOne", "StartBytesTwo", "StartBytesThree", "RareBytesOne", "RareBytesTwo",
+                 "RareBytesThree", "Packed", "standard-RareBytesTwo", "none-akb", "none-fib", "none-nested",
+                 "none-periodic", "ci-trie"]
+COST_STAGE_QUICK = {"kind": "callgrind", "name": "cost", "families": COST_FAMILIES, "sizes": [16384, 32768, 65536]}
+COST_STAGE_THOROUGH = {"kind": "callgrind", "name": "cost", "families": COST_FAMILIES, "sizes": [65536, 131072, 262144]}
+
 ASAN_ENV = {"ASAN_OPTIONS": "abort_on_error=1:halt_on_error=1:detect_leaks=0:allocator_may_return_null=1"}
 
 PROPS.update({
@@ -403,13 +409,23 @@ PROPS.update({
                 "byte later); overlapping stepping and stream iteration are measured cumulatively over one "
                 "OverlappingState / one stream iterator. The hook's work limit (4*len+64) turns a non-terminating "
                 "failure loop into a panic that is reported as a violation. Non-trivial: a call that took at least one "
-                "transition.",
+                "transition. Second stage 'cost' (added after a seeded change made a prefilter rescan the haystack from "
+                "offset 0 on every call, which the transition counters cannot see): for 14 cost families (one per "
+                "prefilter variant incl. standard semantics, plus a^k b, Fibonacci, nested-suffix, periodic and "
+                "case-insensitive tries without prefilter) the whole find_iter of one searcher runs under "
+                "`valgrind --tool=callgrind --toggle-collect=*cost_probe_measured*`, giving the exact instruction count "
+                "of that search (independent of machine load). Haystacks have no candidate byte in their first half and "
+                "a false candidate every few bytes afterwards. Relations: cost(2n) <= 2.5*cost(n)+50k for n = 16K, 32K "
+                "(64K, 128K thorough); cost of a span behind a 256 KiB candidate-free prefix <= 1.5*cost of the "
+                "sub-slice + 100k.",
         "assumptions": COMMON_ASSUMPTIONS[1:] + [
             "counters are incremented at the three next_state call sites of the generic search loops and in the "
             "failure loops of both NFAs (hook commit); prefilter scanning is not counted as automaton work",
-            "wall-clock linearity is not measured, only logical step counts"],
-        "stages": {"quick": NATIVE, "thorough": NATIVE},
+            "wall-clock time is never a verdict; linearity is judged on hook counters and on callgrind instruction counts",
+            "the cost stage needs valgrind's callgrind tool (present in this image) and measures find_iter on the contiguous NFA only"],
+        "stages": {"quick": NATIVE + [COST_STAGE_QUICK], "thorough": NATIVE + [COST_STAGE_THOROUGH]},
         "floors": {"quick": {"evaluations": 50_000, "distinct_nontrivial": 20_000, "transitions_observed": 50_000_000,
+                             "cost_measurements": 60, "cost_relations_checked": 36,
                              "failures_observed": 20_000_000, "calls_with_heavy_failure_traffic": 3000,
                              "stream_iterators_measured": 1000, "family_a^k_b": 150, "family_fibonacci": 150,
                              "family_nested_suffixes": 150},
@@ -627,10 +643,12 @@ MANIFEST_TEXT.update({
         "level_text": "Counter hooks at the automaton-transition and failure-link sites are read around every monitored "
                       "call on adversarial pattern families; the monitor enforces the per-call (or per-state-object, for "
                       "resumable searches) inequalities of the property and converts non-termination into an observable "
-                      "panic through a work limit.",
+                      "panic through a work limit. The 'consequently linear cost' clause is observed separately as exact "
+                      "instruction counts (callgrind) of whole searches at doubling sizes and behind irrelevant prefixes, "
+                      "which also sees work done inside prefilters.",
         "level_note": "Trusted base: placement of the counter hooks (hook commit in /repo), the adversarial generators. "
                       "Logical steps only; no wall-clock verdicts.",
-        "technique": "runtime monitoring: hook counters + work-limit watchdog on adversarial workloads",
+        "technique": "runtime monitoring: hook counters + work-limit watchdog on adversarial workloads; callgrind instruction-count scaling relations",
     },
     "C20": {
         "level_text": "Every build of shape-diverse collections under random option combinations runs under catch_unwind "
